@@ -633,3 +633,22 @@ def g_gate_map_local(rng, level=0, n_random=200):
         g.forward_map = _rand_map(rng, len(q))
         L = int(rng.integers(0, 5))
         yield {'self': g, 'obj': pa.PauliList(bits(rng, L, 2 * N), rng.integers(0, 4, L).astype(np.int64))}
+
+
+@gen(ST + 'clifford_rotation_map')
+def g_rotmap(rng, level=0, n_random=150):
+    pa, _ = _pc()
+    for N in (1, 2):
+        for a in all_strings(N):
+            for p in range(4):
+                yield {'gen': pa.Pauli(a, p)}
+    for _ in range(n_random):
+        N = int(rng.integers(1, 6))
+        yield {'gen': pa.Pauli(bits(rng, 2 * N), int(rng.integers(0, 4)))}
+
+
+@gen(ST + 'zero_state')
+@gen(ST + 'maximally_mixed_state')
+def g_nstate(rng, level=0, n_random=8):
+    for N in range(0, n_random):
+        yield {'N': N}
